@@ -46,45 +46,37 @@ theorem termless_variable_not_recognised :
 
 /-- **Tie A (code → model).**  `Gen.Code.Antecedent_activation_degree` is regenerated from the source of
     `Antecedent.activation_degree` on every run (`fv/pylean.py`: a recursion on a fuel bound - the height of the tree -
-    over expression objects; a variable object is its name, read through the evaluation context `c` of the model and
-    through `hasTerms`, Python's truth value of a variable object, `Variable.__len__`).  For every context and every
+    over expression objects; a variable object is its name, read through the evaluation context `c` of the model,
+    `c.hasTerms` being Python's truth value of a variable object, `Variable.__len__`).  For every context and every
     loaded antecedent `a` (the call `activation_degree(conjunction, disjunction)` of `Rule.activate_with`: `node` is
-    `None`, the tree is `self.expression`): **if every variable of the tree has a term**, the code raises the exception
-    class the model `Op.degree` predicts (`ValueError`: a missing operator, an unknown operator name, a missing term) and
-    otherwise returns the degree of the model - in particular the fuel bound is never exhausted; **if some variable has
-    lost its terms** since the rule was loaded, the code raises `ValueError` (`if not node.variable`, even when the
-    variable is disabled), which the model does not describe.  Second part: an antecedent that is not loaded raises
+    `None`, the tree is `self.expression`) the code raises the exception class the model `Op.degree` predicts
+    (`ValueError`: a variable that has lost its terms since the rule was loaded - `if not node.variable`, even when the
+    variable is disabled -, a missing operator, an unknown operator name, a missing term) and otherwise returns the degree
+    of the model; in particular the fuel bound is never exhausted.  Second part: an antecedent that is not loaded raises
     `RuntimeError`.  Third part: objects `Antecedent.load` never builds - a proposition without a variable, an operator
     with a missing operand - raise `ValueError`. -/
-theorem code_activationDegree (c : DegCtx ℚ) (hasTerms : String → Bool) :
+theorem code_activationDegree (c : DegCtx ℚ) :
     (∀ a : ANode,
-      if (Py.Deg.varsOf a).all hasTerms then
-        match degree c a with
-        | .error k =>
-          Gen.Code.Antecedent_activation_degree.run c hasTerms (Py.Deg.ofANode a) c.conj c.disj .none {} = .error k.toPy
-        | .ok d =>
-          ∃ σ, Gen.Code.Antecedent_activation_degree.run c hasTerms (Py.Deg.ofANode a) c.conj c.disj .none {} = .ok σ ∧
-            σ.ret = some d
-      else Gen.Code.Antecedent_activation_degree.run c hasTerms (Py.Deg.ofANode a) c.conj c.disj .none {} = .error .value) ∧
-    (∀ cj dj, Gen.Code.Antecedent_activation_degree.run c hasTerms .none cj dj .none {} = .error .runtime) ∧
+      match degree c a with
+      | .error k =>
+        Gen.Code.Antecedent_activation_degree.run c (Py.Deg.ofANode a) c.conj c.disj .none {} = .error k.toPy
+      | .ok d =>
+        ∃ σ, Gen.Code.Antecedent_activation_degree.run c (Py.Deg.ofANode a) c.conj c.disj .none {} = .ok σ ∧
+          σ.ret = some d) ∧
+    (∀ cj dj, Gen.Code.Antecedent_activation_degree.run c .none cj dj .none {} = .error .runtime) ∧
     (∀ e cj dj,
-      (∀ hs t, Gen.Code.Antecedent_activation_degree.run c hasTerms e cj dj (.prop ⟨none, hs, t⟩) {} = .error .value) ∧
-      (∀ n r, Gen.Code.Antecedent_activation_degree.run c hasTerms e cj dj (.op n .none r) {} = .error .value) ∧
-      (∀ n l, Gen.Code.Antecedent_activation_degree.run c hasTerms e cj dj (.op n l .none) {} = .error .value)) :=
-  ⟨Op.code_activationDegree_loaded c hasTerms, Op.code_activationDegree_notLoaded c hasTerms,
-   Op.code_activationDegree_defects c hasTerms⟩
+      (∀ hs t, Gen.Code.Antecedent_activation_degree.run c e cj dj (.prop ⟨none, hs, t⟩) {} = .error .value) ∧
+      (∀ n r, Gen.Code.Antecedent_activation_degree.run c e cj dj (.op n .none r) {} = .error .value) ∧
+      (∀ n l, Gen.Code.Antecedent_activation_degree.run c e cj dj (.op n l .none) {} = .error .value)) :=
+  ⟨Op.code_activationDegree_loaded c, Op.code_activationDegree_notLoaded c, Op.code_activationDegree_defects c⟩
 
-/-- what the tie found: a variable that has no terms any more when the rule is evaluated (they were removed after
-    `Rule.load`) makes `activation_degree` raise `ValueError` - also when the variable is disabled, where the model
-    (which has no notion of "the variable object is false") returns 0 -/
-theorem termless_variable_raises (c : DegCtx ℚ) (v : String) (hs : List String) (t : Option String)
-    (he : c.enabled v = false) :
-    degree c (.prop v hs t) = .ok (.fin 0) ∧
-    Gen.Code.Antecedent_activation_degree.run c (fun _ => false) (Py.Deg.ofANode (.prop v hs t)) c.conj c.disj .none {}
-      = .error .value := by
-  refine ⟨by simp [degree, he], ?_⟩
-  have h := (code_activationDegree c (fun _ => false)).1 (.prop v hs t)
-  simpa [Py.Deg.varsOf] using h
+/-- what the tie found (and the model now follows): a variable that has no terms any more when the rule is evaluated
+    (they were removed after `Rule.load`) makes `activation_degree` raise `ValueError` - whatever hedges and term follow,
+    also for `any`, also when the variable is disabled -/
+theorem termless_variable_raises {α : Type} [Field α] [LinearOrder α] [IsStrictOrderedRing α] (c : DegCtx α)
+    (v : String) (hs : List String) (t : Option String) (ht : c.hasTerms v = false) :
+    degree c (.prop v hs t) = .error .value := by
+  simp [degree, ht]
 
 /-- **Tie A (code → model).**  `Gen.Code.Aggregated_activation_degree` is regenerated from the source of
     `Aggregated.activation_degree`; its callee `grouped_terms` is the translation tied in C10 (`C10.code_groupedTerms`).
@@ -212,11 +204,12 @@ section
 variable {α : Type} [Field α] [LinearOrder α] [IsStrictOrderedRing α]
 
 /-- **`Rule.activate_with` = weight × ⟦antecedent⟧** with the block's conjunction and disjunction, for every
-    antecedent; when a needed operator is not set the evaluation raises `ValueError` -/
-theorem degree_denotation (c : DegCtx α) (w : X α) (a : Ante) (hp : a.Proper) :
+    antecedent over variables that have a term (`Ante.Termed`: the rule could be loaded and the terms are still there);
+    when a needed operator is not set the evaluation raises `ValueError` -/
+theorem degree_denotation (c : DegCtx α) (w : X α) (a : Ante) (hp : a.Proper) (ht : a.Termed c) :
     activateWith c w (ofAnte a) = (match a.den c with | some d => .ok (X.mul w d) | none => .error .value) := by
   unfold activateWith
-  rw [degree_ofAnte c a hp]
+  rw [degree_ofAnte c a hp ht]
   cases a.den c <;> rfl
 
 /-- the connectives are the block's operators applied to the values of the two sides -/
@@ -233,9 +226,9 @@ theorem hedge_order (c : DegCtx α) (v h : String) (hs : List String) (t : Strin
 
 /-- the same on the code side: the loop `for hedge in reversed(node.hedges)` computes `h₁(h₂(…hₙ(μ)))` -/
 theorem hedge_order_op (c : DegCtx α) (v : String) (hs : List String) (t : String) (he : c.enabled v = true)
-    (hp : ∀ h ∈ hs, h ≠ "any") :
+    (ht : c.hasTerms v = true) (hp : ∀ h ∈ hs, h ≠ "any") :
     degree c (.prop v hs (some t)) = .ok (hs.foldr (fun h acc => c.hedge h acc) (c.base v t)) := by
-  have := degree_ofAnte c (.prop v hs t) hp
+  have := degree_ofAnte c (.prop v hs t) hp ht
   simpa [ofAnte, Ante.den, he, applyHedges] using this
 
 /-- a proposition reads the term's membership for an input variable and the aggregated activation degree of the
@@ -246,19 +239,20 @@ theorem proposition_base (c : DegCtx α) (v t : String) :
 /-- **`any` yields 1** (with the hedge `any` of the library, regenerated from `hedge.py`), whatever the variable's
     value; hedges in front of `any` are applied to that 1 -/
 theorem any_is_one (F : Fn α) (c : DegCtx α) (hany : c.hedge "any" = Gen.Hedge.any F) (v : String)
-    (he : c.enabled v = true) (hs : List String) :
+    (he : c.enabled v = true) (ht : c.hasTerms v = true) (hs : List String) :
     (Ante.anyP v []).den c = some (.fin 1) ∧ (Ante.anyP v hs).den c = some (applyHedges c hs (.fin 1)) ∧
     degree c (ofAnte (.anyP v [])) = .ok (.fin 1) := by
   have h1 : c.hedge "any" .nan = .fin 1 := by rw [hany]; rfl
   refine ⟨by simp [Ante.den, he, applyHedges, h1], by simp [Ante.den, he, h1], ?_⟩
-  simp [ofAnte, degree, he, hedgesReversed, h1]
+  simp [ofAnte, degree, he, ht, hedgesReversed, h1]
 
-/-- **a disabled variable yields 0**, whatever hedges and term follow (also for `any`) -/
+/-- **a disabled variable yields 0**, whatever hedges and term follow (also for `any`); the variable still has a term
+    (a variable object without terms is false in Python: `ValueError`, see `termless_variable_raises`) -/
 theorem disabled_is_zero (c : DegCtx α) (v : String) (hs : List String) (t : String) (t' : Option String)
-    (he : c.enabled v = false) :
+    (he : c.enabled v = false) (ht : c.hasTerms v = true) :
     (Ante.prop v hs t).den c = some (.fin 0) ∧ (Ante.anyP v hs).den c = some (.fin 0) ∧
     degree c (.prop v hs t') = .ok (.fin 0) := by
-  simp [Ante.den, degree, he]
+  simp [Ante.den, degree, he, ht]
 
 /-- **an output-variable term that was never activated has degree 0** (not NaN); one activation gives its degree
     (with `nan, -inf ↦ 0`, `+inf ↦ 1`), further ones are combined with the aggregation operator -/
